@@ -126,6 +126,33 @@ func gen(t *rapid.T) Case {
 		c.Tol = vkit.F(float64(rapid.SampledFrom([]int{0, 0, 1, 2, 3, 5, 8, 40}).Draw(t, "thintol")) / 2 * u)
 		return c
 	}
+	if rapid.IntRange(0, 19).Draw(t, "flatpoke") == 11 {
+		// a poke line whose bay is flat beyond anything a margin would call general position: a base of length w, an apex
+		// only w*2^-k off it (k = 20..42), and a last segment that comes in almost parallel to the base - from a point a
+		// little behind and below the start of the base to a point inside the bay - so that it crosses the short cut across
+		// the bay at an angle of 1e-6 down to a few 1e-13. Drawn in an oblique frame; judged with exact arithmetic.
+		c.Kind = "flatpoke"
+		w := rapid.Float64Range(100, 2000).Draw(t, "fw")
+		k := rapid.IntRange(20, 42).Draw(t, "fk")
+		h := math.Ldexp(w, -k)
+		e := h * rapid.Float64Range(2, 30).Draw(t, "fe")
+		L := w * rapid.Float64Range(0.3, 1.5).Draw(t, "fL")
+		l := [][2]float64{{0, 0}, {w / 2, h}, {w, 0}, {w + w/10, -w / 5}}
+		m := rapid.IntRange(1, 6).Draw(t, "fdetour")
+		for i := 1; i <= m; i++ { // back to the left, well below the base
+			l = append(l, [2]float64{w + w/10 - (w+w/10+L)*float64(i)/float64(m+1), -w/5 - w/20*float64(i%2)})
+		}
+		l = append(l, [2]float64{-L, -e}, [2]float64{w / 2 * rapid.Float64Range(0.6, 0.95).Draw(t, "fdx"), h / 2 * rapid.Float64Range(0.3, 0.9).Draw(t, "fdy")})
+		a := rapid.Float64Range(0.2, 1.3).Draw(t, "frot") + math.Pi/2*float64(rapid.IntRange(0, 3).Draw(t, "fquad"))
+		ox, oy := rapid.Float64Range(-500, 500).Draw(t, "fox"), rapid.Float64Range(-500, 500).Draw(t, "foy")
+		out := make([]vkit.P2, len(l))
+		for i, q := range l {
+			out[i] = vkit.MkP(ox+q[0]*math.Cos(a)-q[1]*math.Sin(a), oy+q[0]*math.Sin(a)+q[1]*math.Cos(a))
+		}
+		c.Lines, c.Style = [][]vkit.P2{out}, "flatpoke"
+		c.Tol = vkit.F(h * rapid.Float64Range(1.2, 3).Draw(t, "ftol"))
+		return c
+	}
 	if rapid.IntRange(0, 24).Draw(t, "thinwalk") == 7 {
 		// a simple line like any other, flattened: its y-coordinates are handed to Simplify multiplied by 2^-k (an affine
 		// map: what crosses, crosses; what is simple, stays simple), so that every cross product of two of its segments is
@@ -477,6 +504,38 @@ func run(c Case) (v vkit.Verdict) {
 			v.Class("thin_kept_vertices")
 		}
 		v.NonTrivial = true
+		return v
+	}
+	if c.Kind == "flatpoke" {
+		l := c.Lines[0]
+		if !vkit.ExactSimple(l) {
+			v.Class("flatpoke_not_simple_after_rounding_skipped")
+			return v
+		}
+		in := geom.LineString(toPath(l))
+		orig := append(geom.LineString{}, in...)
+		out := in.Simplify(tol).(geom.LineString)
+		if !reflect.DeepEqual(append(geom.LineString{}, in...), orig) {
+			return v.Fail("input line was modified")
+		}
+		if _, msg := checkCurve(geom.Path(in), geom.Path(out), tol); msg != "" {
+			return v.Fail("flat poke line (%d vertices, tol %v): %s; output %v", len(in), tol, msg, out)
+		}
+		v.NonTrivial = true
+		if len(out) < len(in) {
+			v.Class("flatpoke_dropped_vertices")
+		}
+		op := make([]vkit.P2, len(out))
+		for i, q := range out {
+			op[i] = vkit.MkP(q.X, q.Y)
+		}
+		for i := 0; i+1 < len(op); i++ {
+			for j := i + 2; j+1 < len(op); j++ {
+				if _, proper := vkit.ExactSegsMeet(op[i], op[i+1], op[j], op[j+1]); proper {
+					return v.Fail("the input line is simple (decided exactly) but output segments %d and %d cross (decided exactly; tol %v): input %v output %v", i, j, tol, in, out)
+				}
+			}
+		}
 		return v
 	}
 	if c.Kind == "thinwalk" {
